@@ -21,6 +21,7 @@ import (
 func RegisterSpecs(c *Ctx) {
 	e := c.E
 	registerComposeSpec(c)
+	registerKeySpecs(c)
 	argType := func(env *vc.SpecEnv, x spec.Expr) (*geval.SymType, error) {
 		v, err := e.EvalSpec(env, x)
 		if err != nil {
@@ -290,7 +291,7 @@ func RegisterSpecs(c *Ctx) {
 		if err != nil {
 			return vc.Val{}, err
 		}
-		return vc.Val{T: c.hashOpaque(t, x.T), Ty: types.Typ[types.Uint64]}, nil
+		return vc.Val{T: c.hashOpaque(env, t, x.T), Ty: types.Typ[types.Uint64]}, nil
 	}
 	three("CmpTop", func(env *vc.SpecEnv, t *geval.SymType, a, b vc.Val) (smt.T, error) {
 		return c.CmpTop(env, t, a.T, b.T, 0)
@@ -351,6 +352,33 @@ func (c *Ctx) hasUserMethod(t *geval.SymType, fn string) geval.Tri {
 }
 
 func (c *Ctx) flatKnown(t *geval.SymType) geval.Tri {
+	if f := c.In.fact(t); f != nil {
+		switch f.Kind {
+		case geval.KBasic:
+			return geval.Yes
+		case geval.KPointer, geval.KSlice, geval.KMap, geval.KChan, geval.KSignature, geval.KInterface:
+			return geval.No
+		case geval.KArray:
+			if f.Elem != nil {
+				return c.flatKnown(f.Elem)
+			}
+		case geval.KStruct:
+			if f.NFields >= 0 {
+				all := geval.Yes
+				for _, fv := range f.Fields {
+					switch c.flatKnown(fv.Type) {
+					case geval.No:
+						return geval.No
+					case geval.Unknown:
+						all = geval.Unknown
+					}
+				}
+				if all == geval.Yes {
+					return geval.Yes
+				}
+			}
+		}
+	}
 	for k, v := range c.In.Path.Preds {
 		if strings.HasSuffix(k, "("+t.R().Desc+")") && (strings.Contains(k, "canEqual") || strings.Contains(k, "canCopy") || strings.Contains(k, "IsComparable")) {
 			return v
@@ -397,6 +425,35 @@ func (c *Ctx) eqOpaque(t *geval.SymType, a, b smt.T) smt.T {
 	return c.uf("EqSpec", smt.Bool, tt, vc.Box(a), vc.Box(b))
 }
 
+// hashAxiomFor: for a type whose equality the path unfolds (known kind, known
+// fields), HashSpec respects that unfolded equality: forall x y ::
+// EqC(T, x, y) ==> HashSpec(T, x) == HashSpec(T, y).
+func (c *Ctx) hashAxiomFor(env *vc.SpecEnv, t *geval.SymType, fname string) {
+	if c.hashAx == nil {
+		c.hashAx = map[string]bool{}
+	}
+	// one instance per heap the type's equality is read in (the emitted functions
+	// under proof only extend the heap by fresh cells, so HashSpec itself is heap-less)
+	key := fmt.Sprintf("%s/%d/%v/%s", fname, t.R().ID, t.IsView(), env.St.Heap().S)
+	if c.hashAx[key] {
+		return
+	}
+	c.hashAx[key] = true
+	srt := c.SortOfSym(t)
+	c.E.FreshCounter++
+	x := smt.T{S: fmt.Sprintf("hx?%d", c.E.FreshCounter), Sort: srt}
+	y := smt.T{S: fmt.Sprintf("hy?%d", c.E.FreshCounter), Sort: srt}
+	eq, err := c.EqC(env, t, x, y, 0)
+	if err != nil || (fname == "HashSpec" && eq.S == c.eqOpaque(t, x, y).S) {
+		return // opaque: covered by the general axiom
+	}
+	tt := c.typeVal(t).T
+	c.E.Decls.Fun(fname, []smt.Sort{smt.V, smt.V}, smt.Int)
+	hx := smt.App(smt.Int, fname, tt, vc.Box(x))
+	hy := smt.App(smt.Int, fname, tt, vc.Box(y))
+	c.E.Axioms = append(c.E.Axioms, smt.Forall([]smt.Bound{{Name: x.S, Sort: srt}, {Name: y.S, Sort: srt}}, smt.Implies(eq, smt.Eq(hx, hy)), hx, hy))
+}
+
 // declEqSpec declares the structural equality of opaque components with its
 // equivalence axioms.
 func (c *Ctx) declEqSpec() {
@@ -418,8 +475,9 @@ func (c *Ctx) declEqSpec() {
 // hashOpaque: the hash of an opaque component: a function of the value with
 // values in uint64 that agrees on structurally equal values (C04, used as the
 // induction hypothesis / helper contract).
-func (c *Ctx) hashOpaque(t *geval.SymType, a smt.T) smt.T {
+func (c *Ctx) hashOpaque(env *vc.SpecEnv, t *geval.SymType, a smt.T) smt.T {
 	tt := c.typeVal(t).T
+	defer c.hashAxiomFor(env, t, "HashSpec")
 	if !c.E.Decls.HasFun("HashSpec") {
 		c.E.Decls.Fun("HashSpec", []smt.Sort{smt.V, smt.V}, smt.Int)
 		c.declEqSpec()
@@ -433,21 +491,52 @@ func (c *Ctx) hashOpaque(t *geval.SymType, a smt.T) smt.T {
 	return smt.App(smt.Int, "HashSpec", tt, vc.Box(a))
 }
 
+// orderAxioms declares a three-way comparison function fname(T, x, y) of opaque
+// components with what C03 says of it: values in {-1,0,1}, antisymmetric,
+// transitive (a total preorder). Used as the induction hypothesis for
+// components and as the contract of helpers and user Compare methods.
+func (c *Ctx) orderAxioms(fname string) {
+	if c.E.Decls.HasFun(fname) {
+		return
+	}
+	c.E.Decls.Fun(fname, []smt.Sort{smt.V, smt.V, smt.V}, smt.Int)
+	ty, x, y, z := smt.T{S: "t", Sort: smt.V}, smt.T{S: "x", Sort: smt.V}, smt.T{S: "y", Sort: smt.V}, smt.T{S: "z", Sort: smt.V}
+	cmp := func(a, b smt.T) smt.T { return smt.App(smt.Int, fname, ty, a, b) }
+	bs := []smt.Bound{{Name: "t", Sort: smt.V}, {Name: "x", Sort: smt.V}, {Name: "y", Sort: smt.V}}
+	c.E.Axioms = append(c.E.Axioms, smt.Forall(bs, smt.And(smt.Le(smt.IntLit(-1), cmp(x, y)), smt.Le(cmp(x, y), smt.IntLit(1)), smt.Eq(cmp(x, y), smt.Neg(cmp(y, x)))), cmp(x, y)))
+	bs3 := append(bs, smt.Bound{Name: "z", Sort: smt.V})
+	c.E.Axioms = append(c.E.Axioms, smt.Forall(bs3, smt.Implies(smt.And(smt.Le(cmp(x, y), smt.IntLit(0)), smt.Le(cmp(y, z), smt.IntLit(0))), smt.Le(cmp(x, z), smt.IntLit(0))), cmp(x, y), cmp(y, z)))
+	c.E.Axioms = append(c.E.Axioms, smt.Forall(bs3, smt.Implies(smt.And(smt.Le(cmp(x, y), smt.IntLit(0)), smt.Lt(cmp(y, z), smt.IntLit(0))), smt.Lt(cmp(x, z), smt.IntLit(0))), cmp(x, y), cmp(y, z)))
+	c.E.Axioms = append(c.E.Axioms, smt.Forall(bs3, smt.Implies(smt.And(smt.Lt(cmp(x, y), smt.IntLit(0)), smt.Le(cmp(y, z), smt.IntLit(0))), smt.Lt(cmp(x, z), smt.IntLit(0))), cmp(x, y), cmp(y, z)))
+}
+
 // cmpOpaque: the three-way comparison of an opaque component: a total preorder
 // with values in {-1,0,1} whose zero set is structural equality (C03's lemmas,
 // used here as the induction hypothesis / helper contract).
 func (c *Ctx) cmpOpaque(t *geval.SymType, a, b smt.T) smt.T {
 	tt := c.typeVal(t).T
-	if !c.E.Decls.HasFun("CmpSpec") {
-		c.E.Decls.Fun("CmpSpec", []smt.Sort{smt.V, smt.V, smt.V}, smt.Int)
-		ty, x, y, z := smt.T{S: "t", Sort: smt.V}, smt.T{S: "x", Sort: smt.V}, smt.T{S: "y", Sort: smt.V}, smt.T{S: "z", Sort: smt.V}
-		cmp := func(a, b smt.T) smt.T { return smt.App(smt.Int, "CmpSpec", ty, a, b) }
-		bs := []smt.Bound{{Name: "t", Sort: smt.V}, {Name: "x", Sort: smt.V}, {Name: "y", Sort: smt.V}}
-		c.E.Axioms = append(c.E.Axioms, smt.Forall(bs, smt.And(smt.Le(smt.IntLit(-1), cmp(x, y)), smt.Le(cmp(x, y), smt.IntLit(1)), smt.Eq(cmp(x, y), smt.Neg(cmp(y, x)))), cmp(x, y)))
-		bs3 := append(bs, smt.Bound{Name: "z", Sort: smt.V})
-		c.E.Axioms = append(c.E.Axioms, smt.Forall(bs3, smt.Implies(smt.And(smt.Le(cmp(x, y), smt.IntLit(0)), smt.Le(cmp(y, z), smt.IntLit(0))), smt.Le(cmp(x, z), smt.IntLit(0))), cmp(x, y), cmp(y, z)))
-		c.E.Axioms = append(c.E.Axioms, smt.Forall(bs3, smt.Implies(smt.And(smt.Le(cmp(x, y), smt.IntLit(0)), smt.Lt(cmp(y, z), smt.IntLit(0))), smt.Lt(cmp(x, z), smt.IntLit(0))), cmp(x, y), cmp(y, z)))
-		c.E.Axioms = append(c.E.Axioms, smt.Forall(bs3, smt.Implies(smt.And(smt.Lt(cmp(x, y), smt.IntLit(0)), smt.Le(cmp(y, z), smt.IntLit(0))), smt.Lt(cmp(x, z), smt.IntLit(0))), cmp(x, y), cmp(y, z)))
+	first := !c.E.Decls.HasFun("CmpSpec")
+	c.orderAxioms("CmpSpec")
+	if first {
+		// zero exactly on structurally equal values
+		c.declEqSpec()
+		ty, x, y := smt.T{S: "t", Sort: smt.V}, smt.T{S: "x", Sort: smt.V}, smt.T{S: "y", Sort: smt.V}
+		cmp := smt.App(smt.Int, "CmpSpec", ty, x, y)
+		c.E.Axioms = append(c.E.Axioms, smt.Forall([]smt.Bound{{Name: "t", Sort: smt.V}, {Name: "x", Sort: smt.V}, {Name: "y", Sort: smt.V}},
+			smt.Eq(smt.Eq(cmp, smt.IntLit(0)), smt.App(smt.Bool, "EqSpec", ty, x, y)), cmp))
+	}
+	if c.flatKnown(t) == geval.Yes {
+		// on a comparable, reference-free type structural equality is ==
+		key := "cmpflat/" + tt.S
+		if c.hashAx == nil {
+			c.hashAx = map[string]bool{}
+		}
+		if !c.hashAx[key] {
+			c.hashAx[key] = true
+			x, y := smt.T{S: "x", Sort: smt.V}, smt.T{S: "y", Sort: smt.V}
+			cmp := smt.App(smt.Int, "CmpSpec", tt, x, y)
+			c.E.Axioms = append(c.E.Axioms, smt.Forall([]smt.Bound{{Name: "x", Sort: smt.V}, {Name: "y", Sort: smt.V}}, smt.Eq(smt.Eq(cmp, smt.IntLit(0)), smt.Eq(x, y)), cmp))
+		}
 	}
 	return smt.App(smt.Int, "CmpSpec", tt, vc.Box(a), vc.Box(b))
 }
@@ -456,18 +545,97 @@ func sign3(lt, eq smt.T) smt.T {
 	return smt.Ite(lt, smt.IntLit(-1), smt.Ite(eq, smt.IntLit(0), smt.IntLit(1)))
 }
 
-// CmpC: comparison at a component (a user Compare method decides where one exists).
+// CmpC: comparison at a component (a user Compare method decides where one
+// exists; assumption: user Compare methods are total preorders with values in
+// {-1,0,1} that are zero exactly on values the type's equality accepts).
 func (c *Ctx) CmpC(env *vc.SpecEnv, t *geval.SymType, a, b smt.T, depth int) (smt.T, error) {
 	if c.hasUserMethod(t, "compare.compareMethodInputParam") == geval.Yes {
-		return c.uf("userCompare", smt.Int, c.typeVal(t).T, vc.Box(a), vc.Box(b)), nil
+		c.orderAxioms("userCompare")
+		c.userCompareZero(env, t)
+		return smt.App(smt.Int, "userCompare", c.typeVal(t).T, vc.Box(a), vc.Box(b)), nil
 	}
 	return c.CmpTop(env, t, a, b, depth)
 }
 
-// CmpTop: the lexicographic three-way comparison, one level unfolded.
+// userCompareZero: userCompare(T, x, y) == 0 <==> EqC(T, x, y), per type and heap.
+func (c *Ctx) userCompareZero(env *vc.SpecEnv, t *geval.SymType) {
+	if c.hashAx == nil {
+		c.hashAx = map[string]bool{}
+	}
+	key := fmt.Sprintf("ucz/%d/%v/%s", t.R().ID, t.IsView(), env.St.Heap().S)
+	if c.hashAx[key] {
+		return
+	}
+	c.hashAx[key] = true
+	srt := c.SortOfSym(t)
+	c.E.FreshCounter++
+	x := smt.T{S: fmt.Sprintf("ux?%d", c.E.FreshCounter), Sort: srt}
+	y := smt.T{S: fmt.Sprintf("uy?%d", c.E.FreshCounter), Sort: srt}
+	eq, err := c.EqC(env, t, x, y, 0)
+	if err != nil {
+		return
+	}
+	cmp := smt.App(smt.Int, "userCompare", c.typeVal(t).T, vc.Box(x), vc.Box(y))
+	c.E.Axioms = append(c.E.Axioms, smt.Forall([]smt.Bound{{Name: x.S, Sort: srt}, {Name: y.S, Sort: srt}}, smt.Eq(smt.Eq(cmp, smt.IntLit(0)), eq), cmp))
+}
+
+func nilFirst(a, b, inner smt.T) smt.T {
+	an, bn := smt.Eq(a, vc.NilV), smt.Eq(b, vc.NilV)
+	return smt.Ite(smt.And(an, bn), smt.IntLit(0), smt.Ite(an, smt.IntLit(-1), smt.Ite(bn, smt.IntLit(1), inner)))
+}
+
+// lexSeq: the lexicographic comparison of two sequences of equal length n,
+// element by element with CmpC: lex!T(a, b) is 0 when every position compares
+// 0, and otherwise the result at the first position that does not. Defined by
+// one axiom with an explicit witness function (the least-number principle).
+func (c *Ctx) lexSeq(env *vc.SpecEnv, t, el *geval.SymType, a, b smt.T, isArray bool, depth int) (smt.T, error) {
+	id := fmt.Sprintf("%d_%v", t.R().ID, t.IsView())
+	lex, wit := "lex!"+id, "lexw!"+id
+	if !c.E.Decls.HasFun(lex) {
+		c.E.Decls.Fun(lex, []smt.Sort{smt.V, smt.V}, smt.Int)
+		c.E.Decls.Fun(wit, []smt.Sort{smt.V, smt.V}, smt.Int)
+		x, y := smt.T{S: "x", Sort: smt.V}, smt.T{S: "y", Sort: smt.V}
+		nn := smt.App(smt.Int, "s_len", x)
+		if isArray {
+			nn = c.arrayLen(t)
+		}
+		at := func(j smt.T) (smt.T, error) {
+			return c.CmpC(env, el, c.unboxAs(el, smt.App(smt.V, "s_at", x, j)), c.unboxAs(el, smt.App(smt.V, "s_at", y, j)), depth+1)
+		}
+		c.E.FreshCounter++
+		j := smt.T{S: fmt.Sprintf("lj?%d", c.E.FreshCounter), Sort: smt.Int}
+		cj, err := at(j)
+		if err != nil {
+			return smt.T{}, err
+		}
+		w := smt.App(smt.Int, wit, x, y)
+		cw, err := at(w)
+		if err != nil {
+			return smt.T{}, err
+		}
+		l := smt.App(smt.Int, lex, x, y)
+		allZero := smt.Forall([]smt.Bound{{Name: j.S, Sort: smt.Int}}, smt.Implies(smt.And(smt.Le(smt.IntLit(0), j), smt.Lt(j, nn)), smt.Eq(cj, smt.IntLit(0))))
+		zeroBefore := smt.Forall([]smt.Bound{{Name: j.S, Sort: smt.Int}}, smt.Implies(smt.And(smt.Le(smt.IntLit(0), j), smt.Lt(j, w)), smt.Eq(cj, smt.IntLit(0))))
+		body := smt.Or(smt.And(smt.Eq(l, smt.IntLit(0)), allZero),
+			smt.And(smt.Le(smt.IntLit(0), w), smt.Lt(w, nn), smt.Neq(cw, smt.IntLit(0)), smt.Eq(l, cw), zeroBefore))
+		c.E.Axioms = append(c.E.Axioms, smt.Forall([]smt.Bound{{Name: "x", Sort: smt.V}, {Name: "y", Sort: smt.V}}, body, l))
+	}
+	return smt.App(smt.Int, lex, a, b), nil
+}
+
+// CmpTop: the three-way comparison the property describes, one level unfolded:
+// false<true, numeric <, byte-wise strings, real before imaginary part, nil
+// first, shorter first, then lexicographic by position / field.
 func (c *Ctx) CmpTop(env *vc.SpecEnv, t *geval.SymType, a, b smt.T, depth int) (smt.T, error) {
 	f := c.In.fact(t)
 	if f == nil || f.Kind == geval.KUnknown || depth > 3 {
+		return c.cmpOpaque(t, a, b), nil
+	}
+	heap := env.St.Heap()
+	if f.Kind != geval.KBasic && !strings.HasPrefix(c.In.Con.Key, "compare.") {
+		// outside the compare plugin the comparison of a structured type is used
+		// through its order properties only (C03's lemmas, proved for every shape
+		// where compare's own functions are verified)
 		return c.cmpOpaque(t, a, b), nil
 	}
 	switch f.Kind {
@@ -481,9 +649,108 @@ func (c *Ctx) CmpTop(env *vc.SpecEnv, t *geval.SymType, a, b smt.T, depth int) (
 			return sign3(smt.App(smt.Bool, "str_lt", a, b), smt.Eq(a, b)), nil
 		case "float":
 			return sign3(smt.App(smt.Bool, "flt_lt", a, b), smt.App(smt.Bool, "flt_eq", a, b)), nil
+		case "complex":
+			c.E.Decls.Fun("cplx_re", []smt.Sort{smt.V}, smt.V)
+			c.E.Decls.Fun("cplx_im", []smt.Sort{smt.V}, smt.V)
+			re := func(t smt.T) smt.T { return smt.App(smt.V, "cplx_re", t) }
+			im := func(t smt.T) smt.T { return smt.App(smt.V, "cplx_im", t) }
+			flt := func(x, y smt.T) smt.T { return smt.App(smt.Bool, "flt_lt", x, y) }
+			feq := func(x, y smt.T) smt.T { return smt.App(smt.Bool, "flt_eq", x, y) }
+			return smt.Ite(feq(re(a), re(b)), sign3(flt(im(a), im(b)), feq(im(a), im(b))), smt.Ite(flt(re(a), re(b)), smt.IntLit(-1), smt.IntLit(1))), nil
 		}
+	case geval.KPointer:
+		el := c.In.comp(f.Elem, t, "Elem")
+		da := c.unboxAs(el, smt.App(smt.V, "select", heap, a))
+		db := c.unboxAs(el, smt.App(smt.V, "select", heap, b))
+		inner, err := c.CmpC(env, el, da, db, depth+1)
+		if err != nil {
+			return smt.T{}, err
+		}
+		return nilFirst(a, b, inner), nil
+	case geval.KStruct:
+		if f.NFields < 0 {
+			return c.cmpOpaque(t, a, b), nil
+		}
+		res := smt.IntLit(0)
+		for i := len(f.Fields) - 1; i >= 0; i-- {
+			fv := f.Fields[i]
+			fa := c.unboxAs(fv.Type, smt.App(smt.V, "f_get", a, smt.IntLit(i)))
+			fb := c.unboxAs(fv.Type, smt.App(smt.V, "f_get", b, smt.IntLit(i)))
+			x, err := c.CmpC(env, fv.Type, fa, fb, depth+1)
+			if err != nil {
+				return smt.T{}, err
+			}
+			res = smt.Ite(smt.Neq(x, smt.IntLit(0)), x, res)
+		}
+		return res, nil
+	case geval.KSlice, geval.KArray:
+		el := c.In.comp(f.Elem, t, "Elem")
+		la, lb := smt.App(smt.Int, "s_len", a), smt.App(smt.Int, "s_len", b)
+		if f.Kind == geval.KArray {
+			return c.lexSeq(env, t, el, a, b, true, depth)
+		}
+		lex, err := c.lexSeq(env, t, el, a, b, false, depth)
+		if err != nil {
+			return smt.T{}, err
+		}
+		return nilFirst(a, b, smt.Ite(smt.Lt(la, lb), smt.IntLit(-1), smt.Ite(smt.Gt(la, lb), smt.IntLit(1), lex))), nil
+	case geval.KMap:
+		ca, cb := smt.App(smt.Int, "m_card", a), smt.App(smt.Int, "m_card", b)
+		lex, err := c.lexMap(env, t, a, b, depth)
+		if err != nil {
+			return smt.T{}, err
+		}
+		return nilFirst(a, b, smt.Ite(smt.Lt(ca, cb), smt.IntLit(-1), smt.Ite(smt.Gt(ca, cb), smt.IntLit(1), lex))), nil
 	}
 	return c.cmpOpaque(t, a, b), nil
+}
+
+// lexMap: maps of equal size, compared through their sorted key enumerations
+// position by position: where the keys at a position are the same key, by the
+// values stored under it, otherwise by the keys.
+func (c *Ctx) lexMap(env *vc.SpecEnv, t *geval.SymType, a, b smt.T, depth int) (smt.T, error) {
+	f := c.In.fact(t)
+	kt := c.In.comp(f.KeyT, t, "Key")
+	el := c.In.comp(f.Elem, t, "Elem")
+	id := fmt.Sprintf("%d_%v", t.R().ID, t.IsView())
+	lex, wit := "lexm!"+id, "lexmw!"+id
+	if !c.E.Decls.HasFun(lex) {
+		c.E.Decls.Fun(lex, []smt.Sort{smt.V, smt.V}, smt.Int)
+		c.E.Decls.Fun(wit, []smt.Sort{smt.V, smt.V}, smt.Int)
+		x, y := smt.T{S: "x", Sort: smt.V}, smt.T{S: "y", Sort: smt.V}
+		nn := smt.App(smt.Int, "m_card", x)
+		at := func(j smt.T) (smt.T, error) {
+			ka := smt.App(smt.V, "s_at", c.SKTerm(env, kt, x), j)
+			kb := smt.App(smt.V, "s_at", c.SKTerm(env, kt, y), j)
+			cv, err := c.CmpC(env, el, c.unboxAs(el, smt.App(smt.V, "m_get", x, ka)), c.unboxAs(el, smt.App(smt.V, "m_get", y, kb)), depth+1)
+			if err != nil {
+				return smt.T{}, err
+			}
+			ck, err := c.CmpC(env, kt, c.unboxAs(kt, ka), c.unboxAs(kt, kb), depth+1)
+			if err != nil {
+				return smt.T{}, err
+			}
+			return smt.Ite(smt.Eq(ka, kb), cv, ck), nil
+		}
+		c.E.FreshCounter++
+		j := smt.T{S: fmt.Sprintf("mj?%d", c.E.FreshCounter), Sort: smt.Int}
+		cj, err := at(j)
+		if err != nil {
+			return smt.T{}, err
+		}
+		w := smt.App(smt.Int, wit, x, y)
+		cw, err := at(w)
+		if err != nil {
+			return smt.T{}, err
+		}
+		l := smt.App(smt.Int, lex, x, y)
+		allZero := smt.Forall([]smt.Bound{{Name: j.S, Sort: smt.Int}}, smt.Implies(smt.And(smt.Le(smt.IntLit(0), j), smt.Lt(j, nn)), smt.Eq(cj, smt.IntLit(0))))
+		zeroBefore := smt.Forall([]smt.Bound{{Name: j.S, Sort: smt.Int}}, smt.Implies(smt.And(smt.Le(smt.IntLit(0), j), smt.Lt(j, w)), smt.Eq(cj, smt.IntLit(0))))
+		body := smt.Or(smt.And(smt.Eq(l, smt.IntLit(0)), allZero),
+			smt.And(smt.Le(smt.IntLit(0), w), smt.Lt(w, nn), smt.Neq(cw, smt.IntLit(0)), smt.Eq(l, cw), zeroBefore))
+		c.E.Axioms = append(c.E.Axioms, smt.Forall([]smt.Bound{{Name: "x", Sort: smt.V}, {Name: "y", Sort: smt.V}}, body, l))
+	}
+	return smt.App(smt.Int, lex, a, b), nil
 }
 
 // EqTop: structural equality, one level unfolded.
@@ -581,6 +848,11 @@ func (c *Ctx) UserMethodHook(e *vc.Engine, st *vc.State, call *ast.CallExpr, nam
 	if vs, ok, err := c.reflectHook(e, st, call, se, name, args); ok || err != nil {
 		return vs, ok, err
 	}
+	if se.Sel.Name == "Hash" && len(args) == 0 {
+		if vs, ok, err := c.userHashCall(e, st, call, se); ok || err != nil {
+			return vs, ok, err
+		}
+	}
 	if len(args) != 1 {
 		return nil, false, nil
 	}
@@ -639,6 +911,50 @@ func (c *Ctx) UserMethodHook(e *vc.Engine, st *vc.State, call *ast.CallExpr, nam
 	} else {
 		// nil first
 		res = smt.Ite(smt.And(xn, yn), smt.IntLit(0), smt.Ite(xn, smt.IntLit(-1), smt.Ite(yn, smt.IntLit(1), app)))
+	}
+	return []vc.Val{{T: res, Ty: c.In.Info.TypeOf(call)}}, true, nil
+}
+
+// userHashCall: a user-declared Hash method is an uninterpreted total function
+// of the receiver's value (assumption: it is consistent with the type's
+// equality, as the derived hash has to be: Equal values have the same Hash).
+func (c *Ctx) userHashCall(e *vc.Engine, st *vc.State, call *ast.CallExpr, se *ast.SelectorExpr) ([]vc.Val, bool, error) {
+	sel := c.In.Info.Selections[se]
+	if sel == nil || sel.Kind() != types.MethodVal {
+		return nil, false, nil
+	}
+	rt := sel.Recv()
+	isPtr := false
+	if p, ok := rt.Underlying().(*types.Pointer); ok {
+		rt, isPtr = p.Elem(), true
+	}
+	named, ok := rt.(*types.Named)
+	if !ok || !strings.HasPrefix(named.Obj().Name(), Mark+"T") {
+		return nil, false, nil
+	}
+	var sym *geval.SymType
+	for t, n := range c.In.Names {
+		if n == named.Obj().Name() {
+			sym = t
+		}
+	}
+	if sym == nil {
+		return nil, false, nil
+	}
+	recv, err := e.EvalExpr(st, se.X)
+	if err != nil {
+		return nil, true, err
+	}
+	val := recv.T
+	if isPtr {
+		val = c.unboxAs(sym, smt.App(smt.V, "select", st.Heap(), recv.T))
+	}
+	env := &vc.SpecEnv{E: e, St: st, Old: st, Bound: map[string]vc.Val{}}
+	c.hashAxiomFor(env, sym, "userHash")
+	res := smt.App(smt.Int, "userHash", c.typeVal(sym).T, vc.Box(val))
+	if isPtr {
+		// a nil receiver is the user method's business: some fixed value
+		res = smt.Ite(smt.Eq(recv.T, vc.NilV), c.uf("userHashNil", smt.Int, c.typeVal(sym).T), res)
 	}
 	return []vc.Val{{T: res, Ty: c.In.Info.TypeOf(call)}}, true, nil
 }
